@@ -91,6 +91,80 @@ func genPrefill(r *vhlib.Rand, pl int, p int) string {
 	return string(b)
 }
 
+// genMultiWriterCase: two or three web-seed fetches alive at once.  Each writer is fed file by file
+// as webseedGR feeds it (one ReadFrom — sometimes Writes — per file, the files' boundaries not
+// block-aligned), and the writers' calls are interleaved in a generated order.
+func genMultiWriterCase(s *state) {
+	r := s.c.R
+	runOp(s, "mw.begin")
+	nw := 2 + r.Intn(2)
+	type feed struct{ chunks []int }
+	feeds := make([]feed, nw)
+	for i := 0; i < nw; i++ {
+		pl := genPiece(r)
+		off := CS * r.Intn(nblocks(pl))
+		if r.Chance(50) {
+			off = 0
+		}
+		cnt := pl - off
+		if r.Chance(30) {
+			cnt = CS * (1 + r.Intn((pl-off+CS-1)/CS))
+			if cnt > pl-off {
+				cnt = pl - off
+			}
+		}
+		runOp(s, fmt.Sprintf("w.sel %d", i))
+		runOp(s, fmt.Sprintf("w.open %d %d %d %d %s", pl, off, cnt, r.Intn(250), genPrefill(r, pl, 20)))
+		// the files the range crosses
+		left := cnt
+		for left > 0 {
+			l := r.PickInt(1, 7, 100, 5000, 8191, 16383, 16385, 20000, 40000)
+			if r.Chance(20) {
+				l = 1 + r.Intn(30000)
+			}
+			if l > left {
+				l = left
+			}
+			feeds[i].chunks = append(feeds[i].chunks, l)
+			left -= l
+		}
+	}
+	cur := nw - 1
+	for {
+		var alive []int
+		for i := range feeds {
+			if len(feeds[i].chunks) > 0 {
+				alive = append(alive, i)
+			}
+		}
+		if len(alive) == 0 {
+			break
+		}
+		i := alive[r.Intn(len(alive))]
+		if i != cur {
+			runOp(s, fmt.Sprintf("w.sel %d", i))
+			cur = i
+		}
+		l := feeds[i].chunks[0]
+		feeds[i].chunks = feeds[i].chunks[1:]
+		if r.Chance(15) {
+			runOp(s, fmt.Sprintf("w.write %d", l))
+		} else {
+			// one file = one body: read in segments, EOF at the end
+			items := genItems(r, l)
+			if !strings.HasSuffix(items, ":e") && !strings.Contains(items, ":f") && r.Chance(70) {
+				items = items[:len(items)-1] + "e"
+			}
+			runOp(s, "w.readfrom "+items)
+		}
+	}
+	for i := 0; i < nw; i++ {
+		runOp(s, fmt.Sprintf("w.sel %d", i))
+		runOp(s, "w.close")
+		runOp(s, "w.dump")
+	}
+}
+
 func genWriterCase(s *state) {
 	r := s.c.R
 	pl := genPiece(r)
@@ -327,6 +401,39 @@ func crStr(a, b int64, total string) string { return fmt.Sprintf("bytes %d-%d/%s
 var badCRs = []string{"bytes", "items 0-5/10", "bytes 5-2/10", "bytes 0-9/5", "bytes=0-9/10", "0-9/10", "bytes 0-/10",
 	"bytes -/10", "bytes 0-9", "bytes 0-9/", "bytes a-b/c", "bytes 0-9/10x", "bytes 0-99999999999999999999/100"}
 
+// genFormResp: every Content-Range form the parser accepts (and some it refuses) x status, against a
+// body that is the requested range, the file from byte 0, or the file from another offset.  Only
+// `a-b/N` and `a-b/*` with a = the requested start say that the body is the requested range.
+func genFormResp(r *vhlib.Rand, p chunk) string {
+	off, l, fl := p.off, p.leng, p.flen
+	flS := fmt.Sprint(fl)
+	forms := []string{
+		"bytes */" + flS, "bytes */" + flS, "bytes */" + flS, "bytes */" + fmt.Sprint(fl+1), "bytes */0",
+		crStr(off, off+l-1, "*"), crStr(0, l-1, "*"), crStr(0, l-1, flS), crStr(off, off+l-1, flS),
+		crStr(off+l-1, off, flS), crStr(off, fl+5, flS), crStr(off, off+l-1, fmt.Sprint(off+l-2)),
+		"bytes " + fmt.Sprint(off) + "-9223372036854775807/*", "bytes -1-5/" + flS,
+		"bytes 0-9223372036854775806/9223372036854775807", "",
+	}
+	cr := forms[r.Intn(len(forms))]
+	fo := off
+	switch r.Intn(3) {
+	case 0:
+		fo = 0
+	case 1:
+		fo = off / 2
+	}
+	n := l
+	if fo+n > fl {
+		n = fl - fo
+	}
+	status := r.PickInt(206, 206, 206, 200, 416)
+	cl := "-"
+	if r.Bool() {
+		cl = fmt.Sprint(n)
+	}
+	return fmt.Sprintf("%d;%s;%s;%d:%d:0;e", status, cl, vhlib.Hex([]byte(cr)), fo, n)
+}
+
 // genResp scripts the server's answer to the request for chunk p.
 func genResp(r *vhlib.Rand, p chunk) string {
 	if p.pad {
@@ -351,7 +458,9 @@ func genResp(r *vhlib.Rand, p chunk) string {
 		}
 		return mk(206, clOf(l), crStr(off, off+l-1, tot), off, l, 0, "e")
 	}
-	switch r.Intn(15) {
+	switch r.Intn(18) {
+	case 15, 16, 17:
+		return genFormResp(r, p)
 	case 0: // over-long body, range claimed as requested
 		j := int64(r.PickInt(1, 100, 20000))
 		return mk(206, clOf(l+j), crStr(off, off+l-1, flS), off, l, j, "e")
@@ -474,7 +583,7 @@ func genMaybeLargeCase(s *state) {
 	np := int((total + int64(ps) - 1) / int64(ps))
 	index := r.Intn(np)
 	pl := pieceLen(ps, total, index)
-	runOp(s, fmt.Sprintf("g.new %d %d %s %d %d %s", ps, total, filesStr(fs), index, r.Intn(250), genLargePrefill(r, pl)))
+	runOp(s, fmt.Sprintf("g.new %d %d %s %d %d %s", ps, total, filesStr(fs), index, r.Intn(250)+1000*r.Intn(nStyles), genLargePrefill(r, pl)))
 	for k, n := 0, 1+r.Intn(3); k < n; k++ {
 		mode := "e"
 		if r.Chance(12) {
@@ -522,6 +631,9 @@ func genWebseedCase(s *state) {
 	index := r.Intn(np)
 	pl := pieceLen(ps, total, index)
 	seed := r.Intn(250)
+	if r.Chance(45) {
+		seed += 1000 * r.Intn(nStyles) // names with reserved characters, blanks, non-ASCII, nested directories
+	}
 	runOp(s, fmt.Sprintf("g.new %d %d %s %d %d %s", ps, total, filesStr(fs), index, seed, genPrefill(r, pl, 25)))
 	nf := 1 + r.Intn(2)
 	for k := 0; k < nf; k++ {
@@ -631,10 +743,36 @@ func genPcrCase(s *state) {
 	runOp(s, "pcr "+vhlib.Hex([]byte(str)))
 }
 
+func genUrlCase(s *state) {
+	r := s.c.R
+	words := []string{"t", "a b", "a#b", "q?x", "100%", "%41", "%zz", "a+b&c=d", "\u00e9t\u00e9", "\u65e5\u672c", "sub", "dir", "inner.bin",
+		"a/b", "..", ".", "", "x;y,z", "a:b@c$d", "~-_.", "\xff\xfe", "tab\there", "[v6]", "a\\b", "\"q\""}
+	w := func() string { return words[r.Intn(len(words))] }
+	base := pickStr(r, "http://h/gr/", "http://h/gr", "http://h:8080/a%20b/", "https://h/", "http://h")
+	name := w()
+	comps := "nil"
+	if r.Chance(80) {
+		n := r.PickInt(0, 1, 1, 2, 3, 4)
+		if n == 0 {
+			comps = "."
+		} else {
+			var cs []string
+			for i := 0; i < n; i++ {
+				cs = append(cs, vhlib.Hex([]byte(w())))
+			}
+			comps = strings.Join(cs, ",")
+		}
+	}
+	runOp(s, fmt.Sprintf("url %s %s %s", vhlib.Hex([]byte(base)), vhlib.Hex([]byte(name)), comps))
+}
+
 func generate(s *state) {
 	n := s.c.N
 	for i := 0; i < n; i++ {
 		genWriterCase(s)
+	}
+	for i := 0; i < n/6+2; i++ {
+		genMultiWriterCase(s)
 	}
 	for i := 0; i < n; i++ {
 		genFcCase(s)
@@ -653,6 +791,9 @@ func generate(s *state) {
 	}
 	for i := 0; i < n; i++ {
 		genPcrCase(s)
+	}
+	for i := 0; i < n/4; i++ {
+		genUrlCase(s)
 	}
 }
 
